@@ -111,7 +111,7 @@ class IPv4FlowSpec(NLRI):
         """
         prefix_len = ord(data[0:1])
         octet_len = int(math.ceil(prefix_len / 8))
-        tmp = data[1:octet_len + 1]
+        tmp = NLRI.clear_trailing_bits(data[1:octet_len + 1], prefix_len)
         if not tmp or isinstance(tmp[0], int):
             prefix_data = [i for i in tmp]
         else:
